@@ -112,8 +112,9 @@ Lemma cont_phase_proj udw cfg f st :
   st_csum (cont_phase udw cfg f st) = st_csum st /\
   st_reports (cont_phase udw cfg f st) = st_reports st.
 Proof.
-  unfold cont_phase. destruct (st_pending st) as [[|]|]; [|split; reflexivity|split; reflexivity].
-  destruct (st_watching st), (fs_addfile_ok f); split; reflexivity.
+  unfold cont_phase. destruct (st_pending st) as [[|]|]; [| |split; reflexivity].
+  - destruct (st_watching st), (fs_addfile_ok f); split; reflexivity.
+  - destruct (fs_linkres f); split; reflexivity.
 Qed.
 
 Lemma reload_proj udw cfg f st :
@@ -130,8 +131,9 @@ Proof. destruct (read_proj f st) as [_ ->]. destruct (reload_proj udw cfg f st) 
 Lemma cont_phase_running udw cfg f st :
   st_running st = true -> st_running (cont_phase udw cfg f st) = true.
 Proof.
-  intro R. unfold cont_phase. destruct (st_pending st) as [[|]|]; [|reflexivity|exact R].
-  destruct (st_watching st), (fs_addfile_ok f); reflexivity.
+  intro R. unfold cont_phase. destruct (st_pending st) as [[|]|]; [| |exact R].
+  - destruct (st_watching st), (fs_addfile_ok f); reflexivity.
+  - destruct (fs_linkres f); reflexivity.
 Qed.
 
 Lemma reload_running udw cfg f st : st_running (reload udw cfg f st) = true.
@@ -344,7 +346,7 @@ Lemma WInv_exists_branch cfg f st :
   WInv cfg (cont_phase update_dir_watches cfg f st).
 Proof.
   intros Hcfg Hok1 Hadd Hp [Hres Hw] Hrun. destruct (Hw Hrun) as (A & B & C & D & E). clear Hw.
-  unfold fs_ok in Hok1. apply andb_true_iff in Hadd as [Ha Hd].
+  unfold fs_ok in Hok1. apply andb_true_iff in Hok1 as [Hok1 _]. apply andb_true_iff in Hadd as [Ha Hd].
   unfold cont_phase. rewrite Hp, Ha, Hd.
   set (res := match fs_resolved f with Some r => r | None => st_resolved st end).
   assert (path_eqb (dir res) cfg = false) as Hres'.
@@ -380,29 +382,61 @@ Proof.
       repeat split; try discriminate; auto.
 Qed.
 
+Lemma WInv_notexist_link cfg f st r :
+  cfg <> [] -> fs_ok cfg f = true -> fs_linkres f = Some r -> fs_adddir_ok f = true ->
+  st_pending st = Some false -> WInv cfg st -> st_running st = true ->
+  WInv cfg (cont_phase update_dir_watches cfg f st).
+Proof.
+  intros Hcfg Hok Hl Hd Hp [Hres Hw] Hrun. destruct (Hw Hrun) as (A & B & C & D & E). clear Hw.
+  assert (path_eqb cfg (dir cfg) = false) as Hcd.
+  { destruct (path_eqbP cfg (dir cfg)) as [H|]; [|reflexivity]. symmetry in H. now apply dir_neq in H. }
+  unfold fs_ok in Hok. apply andb_true_iff in Hok as [_ Hok2]. rewrite Hl in Hok2. apply negb_true_iff in Hok2.
+  unfold cont_phase. rewrite Hp, Hl, Hd. split; [exact Hok2|]. cbn. intros _.
+  set (w0 := if st_watching st then wremove cfg (st_watches st) else st_watches st).
+  assert (mem (dir cfg) w0 = true /\ mem (dir (st_resolved st)) w0 = true /\ mem cfg w0 = false) as (A0 & B0 & E0).
+  { unfold w0. destruct (st_watching st) eqn:Wt.
+    - rewrite !mem_wremove, A, B, path_eqb_refl. rewrite path_eqb_sym, Hcd, Hres. cbn. repeat split; reflexivity.
+    - repeat split; auto. }
+  unfold update_dir_watches. cbn.
+  destruct (path_eqbP (dir (st_resolved st)) (dir r)) as [Heq|Hne].
+  - rewrite <- Heq, A0, B0, E0. repeat split; try discriminate; auto.
+  - destruct (path_eqbP (dir (st_resolved st)) (dir cfg)) as [Heq2|Hne2].
+    + rewrite !mem_wadd, A0, E0, path_eqb_refl. cbn. rewrite orb_true_r, (path_eqb_sym cfg), Hok2. cbn.
+      repeat split; try discriminate; auto.
+    + rewrite !mem_wremove, !mem_wadd, A0, E0, path_eqb_refl. cbn. rewrite orb_true_r.
+      replace (path_eqb (dir cfg) (dir (st_resolved st))) with false
+        by (symmetry; destruct (path_eqbP (dir cfg) (dir (st_resolved st))); congruence).
+      replace (path_eqb (dir r) (dir (st_resolved st))) with false
+        by (symmetry; destruct (path_eqbP (dir r) (dir (st_resolved st))); congruence).
+      rewrite (path_eqb_sym cfg (dir r)), Hok2. cbn. rewrite andb_false_r.
+      repeat split; try discriminate; auto.
+Qed.
+
 Lemma WInv_cont_phase cfg f st :
   cfg <> [] -> fs_ok cfg f = true ->
-  match st_pending st with Some true => adds_ok f | _ => true end = true ->
+  match st_pending st with Some true => adds_ok f | Some false => linkadd_ok f | None => true end = true ->
   WInv cfg st -> st_running st = true ->
   WInv cfg (cont_phase update_dir_watches cfg f st).
 Proof.
   intros Hcfg Hok Hadd HW Hrun. destruct (st_pending st) as [[|]|] eqn:Hp.
   - apply WInv_exists_branch; assumption.
   - (* not exist *)
-    destruct HW as [Hres Hw]. destruct (Hw Hrun) as (A & B & C & D & E). clear Hw.
-    assert (path_eqb cfg (dir cfg) = false) as Hcd.
-    { destruct (path_eqbP cfg (dir cfg)) as [H|]; [|reflexivity]. symmetry in H. now apply dir_neq in H. }
-    unfold cont_phase. rewrite Hp. split; [exact Hres|]. cbn. intros _.
-    destruct (st_watching st) eqn:Wt.
-    + rewrite !mem_wremove. rewrite A, B. rewrite path_eqb_sym, Hcd, Hres. cbn.
-      rewrite path_eqb_refl. cbn. repeat split; try discriminate; reflexivity.
-    + rewrite A, B. repeat split; try discriminate. intros _. now apply E.
+    unfold linkadd_ok in Hadd. destruct (fs_linkres f) as [r|] eqn:Hl.
+    + eapply WInv_notexist_link; eauto.
+    + destruct HW as [Hres Hw]. destruct (Hw Hrun) as (A & B & C & D & E). clear Hw.
+      assert (path_eqb cfg (dir cfg) = false) as Hcd.
+      { destruct (path_eqbP cfg (dir cfg)) as [H|]; [|reflexivity]. symmetry in H. now apply dir_neq in H. }
+      unfold cont_phase. rewrite Hp, Hl. split; [exact Hres|]. cbn. intros _.
+      destruct (st_watching st) eqn:Wt.
+      * rewrite !mem_wremove. rewrite A, B. rewrite path_eqb_sym, Hcd, Hres. cbn.
+        rewrite path_eqb_refl. cbn. repeat split; try discriminate; reflexivity.
+      * rewrite A, B. repeat split; try discriminate. intros _. now apply E.
   - unfold cont_phase. rewrite Hp. exact HW.
 Qed.
 
 Lemma WInv_reload cfg f st :
   cfg <> [] -> fs_ok cfg f = true ->
-  match fs_read f with NotExist => true | _ => adds_ok f end = true ->
+  match fs_read f with NotExist => linkadd_ok f | _ => adds_ok f end = true ->
   WInv cfg st -> st_running st = true ->
   WInv cfg (reload update_dir_watches cfg f st).
 Proof.
@@ -431,7 +465,7 @@ Qed.
 
 Lemma WInv_cont cfg f st :
   cfg <> [] -> fs_ok cfg f = true ->
-  match st_pending st with Some true => adds_ok f | _ => true end = true ->
+  match st_pending st with Some true => adds_ok f | Some false => linkadd_ok f | None => true end = true ->
   WInv cfg st -> WInv cfg (cont update_dir_watches cfg f st).
 Proof.
   intros Hcfg Hok Hadd HW. unfold cont. destruct (st_running st) eqn:R; [|exact HW].
@@ -466,8 +500,8 @@ Proof.
       cbn; repeat rewrite orb_true_r; reflexivity.
 Qed.
 
-Lemma fs_ok_init cfg c0 r0 : path_eqb (dir r0) cfg = false -> fs_ok cfg (init_fs c0 r0) = true.
-Proof. intro H. unfold fs_ok, init_fs. cbn. now rewrite H. Qed.
+Lemma fs_ok_init cfg c0 r0 : path_eqb (dir r0) cfg = false -> fs_ok cfg (init_fs cfg c0 r0) = true.
+Proof. intro H. unfold fs_ok, init_fs. cbn. destruct (path_eqb cfg r0); cbn; now rewrite H. Qed.
 
 Lemma WInv_run cfg t f st :
   cfg <> [] -> fs_ok cfg f = true -> WInv cfg st ->
@@ -625,13 +659,13 @@ Proof. unfold Pre. destruct (fs_read f) as [|c|]; auto. destruct (decode c); aut
 Lemma converges_l cfg c0 v0 r0 t1 f t2 :
   decode c0 = Some v0 -> cfg <> [] -> path_eqb (dir r0) cfg = false ->
   forallb (fun it => negb (is_fs it)) t2 = true ->
-  trace_ok update_dir_watches cfg (t1 ++ Fs f :: t2) (init_fs c0 r0) (init_state cfg c0 v0 r0) = true ->
-  e_notify update_dir_watches cfg (t1 ++ Fs f :: t2) (init_fs c0 r0) (init_state cfg c0 v0 r0) = true ->
-  Conv f (snd (run update_dir_watches cfg t1 (init_fs c0 r0, init_state cfg c0 v0 r0)))
-         (snd (run update_dir_watches cfg (t1 ++ Fs f :: t2) (init_fs c0 r0, init_state cfg c0 v0 r0))).
+  trace_ok update_dir_watches cfg (t1 ++ Fs f :: t2) (init_fs cfg c0 r0) (init_state cfg c0 v0 r0) = true ->
+  e_notify update_dir_watches cfg (t1 ++ Fs f :: t2) (init_fs cfg c0 r0) (init_state cfg c0 v0 r0) = true ->
+  Conv f (snd (run update_dir_watches cfg t1 (init_fs cfg c0 r0, init_state cfg c0 v0 r0)))
+         (snd (run update_dir_watches cfg (t1 ++ Fs f :: t2) (init_fs cfg c0 r0, init_state cfg c0 v0 r0))).
 Proof.
   intros D Hcfg Hr Hfs Hok Hen.
-  set (x0 := (init_fs c0 r0, init_state cfg c0 v0 r0)) in *.
+  set (x0 := (init_fs cfg c0 r0, init_state cfg c0 v0 r0)) in *.
   apply trace_ok_app in Hok as [Hok1 _].
   destruct (WInv_run cfg t1 _ _ Hcfg (fs_ok_init cfg c0 r0 Hr) (WInv_init cfg c0 v0 r0 Hcfg Hr) Hok1) as [HW _].
   apply e_notify_app in Hen. cbn [FileWatch.e_notify] in Hen. apply andb_true_iff in Hen as [Hn _].
@@ -706,7 +740,7 @@ Qed.
 
 Lemma loop_exits_l udw cfg c0 v0 r0 t1 i t2 :
   stops i = true ->
-  let x0 := (init_fs c0 r0, init_state cfg c0 v0 r0) in
+  let x0 := (init_fs cfg c0 r0, init_state cfg c0 v0 r0) in
   st_pending (snd (run udw cfg t1 x0)) = None ->
   let st := snd (run udw cfg (t1 ++ In i :: t2) x0) in
   st_running st = false /\ st_watches st = [] /\
@@ -773,8 +807,12 @@ Proof.
     destruct (st_watching st); [|destruct (fs_addfile_ok f)]; cbn;
       destruct (path_eqbP (dir (st_resolved st)) (dir res)); cbn; intro H;
       try congruence; rewrite ?orb_true_r; reflexivity.
-  - destruct (st_watching st); cbn; [|congruence].
-    rewrite mem_wremove, H0, andb_false_r. discriminate.
+  - assert (mem p (if st_watching st then wremove cfg (st_watches st) else st_watches st) = false) as H1.
+    { destruct (st_watching st); [|exact H0]. rewrite mem_wremove, H0. apply andb_false_r. }
+    destruct (fs_linkres f) as [r|]; cbn; [|congruence].
+    unfold update_dir_watches.
+    destruct (path_eqbP (dir (st_resolved st)) (dir r)); cbn; intro H; [congruence|].
+    apply orb_true_r.
 Qed.
 
 (* a waiting token is received like any other input and makes the loop re-read *)
@@ -834,7 +872,7 @@ Proof. intros S P. exact (loop_exits_l udw cfg c0 v0 r0 t1 i t2 S P). Qed.
 
 Lemma watchset_invariant_l cfg c0 v0 r0 t :
   cfg <> [] -> path_eqb (dir r0) cfg = false ->
-  trace_ok update_dir_watches cfg t (init_fs c0 r0) (init_state cfg c0 v0 r0) = true ->
+  trace_ok update_dir_watches cfg t (init_fs cfg c0 r0) (init_state cfg c0 v0 r0) = true ->
   winv cfg (after update_dir_watches cfg c0 v0 r0 t) = true.
 Proof.
   intros Hcfg Hr Hok. apply WInv_winv.
@@ -845,8 +883,8 @@ Lemma converges_given_notification_l cfg c0 v0 r0 t1 f t2 :
   (forall a b, hmac a = hmac b -> a = b) -> decode c0 = Some v0 ->
   cfg <> [] -> path_eqb (dir r0) cfg = false ->
   forallb (fun it => negb (is_fs it)) t2 = true ->
-  trace_ok update_dir_watches cfg (t1 ++ Fs f :: t2) (init_fs c0 r0) (init_state cfg c0 v0 r0) = true ->
-  e_notify update_dir_watches cfg (t1 ++ Fs f :: t2) (init_fs c0 r0) (init_state cfg c0 v0 r0) = true ->
+  trace_ok update_dir_watches cfg (t1 ++ Fs f :: t2) (init_fs cfg c0 r0) (init_state cfg c0 v0 r0) = true ->
+  e_notify update_dir_watches cfg (t1 ++ Fs f :: t2) (init_fs cfg c0 r0) (init_state cfg c0 v0 r0) = true ->
   let st1 := after update_dir_watches cfg c0 v0 r0 t1 in
   let st := after update_dir_watches cfg c0 v0 r0 (t1 ++ Fs f :: t2) in
   match fs_read f with
